@@ -102,6 +102,11 @@ def run(ctx: Ctx):
         if kind == "ok":
             _oracle(ctx, frame, terms, efr, na, cd, output, det)
         lit = M.case_literal(frame, terms, efr, na, cd, exp)
+        # two different errors are due (a missing variable AND a null under na_action='raise'): which one surfaces depends on the order in
+        # which factors are evaluated; the model evaluates the whole pool before looking at nulls. Both are rejections: not compared.
+        if na == "raise" and any(x == "zz" for t in terms for x, m in t) and kind in ("eval", "nullraise"):
+            ctx.count("build", "two errors due: not compared")
+            continue
         lits.append(lit)
         descr.append({"frame": frame.describe(), "terms": terms, "ensure_full_rank": efr, "na_action": na, "drop_rows": cd, "output": output, "implementation": kind})
         if any(len([1 for x, m in t if m != "literal"]) >= 2 or any(x in M.CAT for x, m in t) for t in terms):
